@@ -77,11 +77,15 @@ package composite
 //@   atcall ProcessDNSRewrites assert the-profiles-own-rules-are-consulted-first: f.custom != nil ==> asked > old(asked) && askedWho[old(asked)] == custF(f)
 //@   atcall Add assert the-profiles-own-matches-are-added-before-any-others: f.custom != nil && askedRes[old(asked)] != 0 && arg1 != askedRes[old(asked)] ==> addedTo[arg0][askedRes[old(asked)]]
 //@   ensures lastRL == r
+// A rewrite rule of ANY enabled list outranks plain allow and block rules, so a
+// verdict that is not a rewrite is only given after every list has been asked.
+//@   ensures no-plain-verdict-before-every-list-was-asked: r == nil || isptr(r, internal.ResultAllowed) || isptr(r, internal.ResultBlocked) ==>
+//@             asked == old(asked) + (f.custom != nil ? 1 : 0) + len(f.ruleLists) + len(f.svcLists)
 //@   ensures r == nil || isptr(r, internal.ResultAllowed) || isptr(r, internal.ResultBlocked) || isptr(r, internal.ResultModifiedRequest) || isptr(r, internal.ResultModifiedResponse)
 //@   ensures isptr(r, internal.ResultAllowed) ==> asptr(r, internal.ResultAllowed) != nil
-//@   loop 1 invariant -1 <= #i && #i < len(f.ruleLists) && ufRes != nil && fresh(ufRes) && asked >= old(asked) && (f.custom != nil ==> asked > old(asked) && askedWho[old(asked)] == custF(f))
+//@   loop 1 invariant -1 <= #i && #i < len(f.ruleLists) && ufRes != nil && fresh(ufRes) && asked == old(asked) + (f.custom != nil ? 1 : 0) + #i + 1 && (f.custom != nil ==> asked > old(asked) && askedWho[old(asked)] == custF(f))
 //@   loop 1 invariant f.custom != nil && askedRes[old(asked)] != 0 ==> addedTo[ufRes][askedRes[old(asked)]]
-//@   loop 2 invariant -1 <= #i && #i < len(f.svcLists) && ufRes != nil && fresh(ufRes) && asked >= old(asked) && (f.custom != nil ==> asked > old(asked) && askedWho[old(asked)] == custF(f))
+//@   loop 2 invariant -1 <= #i && #i < len(f.svcLists) && ufRes != nil && fresh(ufRes) && asked == old(asked) + (f.custom != nil ? 1 : 0) + len(f.ruleLists) + #i + 1 && (f.custom != nil ==> asked > old(asked) && askedWho[old(asked)] == custF(f))
 //@   loop 2 invariant f.custom != nil && askedRes[old(asked)] != 0 ==> addedTo[ufRes][askedRes[old(asked)]]
 
 //@ pred custAllow(r internal.Result) = isptr(r, internal.ResultAllowed) && asptr(r, internal.ResultAllowed).List == "custom"
